@@ -28,8 +28,16 @@ pub fn generate(prop: &str, run_seed: u64, _index: u64, tier: Tier) -> Trace {
     for &(k, x) in base {
         w[k as usize] = x;
     }
+    if prop == "C16" {
+        // splitting and what happens to the parts afterwards
+        w[K_SPLIT_OFF as usize] = 30;
+        w[K_CONVERT as usize] = 8;
+        w[K_DROP as usize] = 4;
+        w[K_SHRINK as usize] = 6;
+        w[K_RESERVE as usize] = 8;
+    }
     for k in 0..w.len() {
-        if w[k] > 0 && k as u16 != K_PUSH_STR && k as u16 != K_NEW && rw.chance(1, 6) {
+        if w[k] > 0 && !(prop == "C16" && k as u16 == K_SPLIT_OFF) && k as u16 != K_PUSH_STR && k as u16 != K_NEW && rw.chance(1, 6) {
             w[k] = 0;
         }
     }
